@@ -41,6 +41,9 @@ func (e *Engine) resetPath(prefix []int) {
 	e.started = map[*Solver]bool{}
 	e.facts = map[int]bool{}
 	e.decisions = nil
+	e.choices = nil
+	e.pinModel = map[string]uint64{}
+	e.pinMemo = map[*Term]uint64{}
 	e.prefix = prefix
 	e.steps = 0
 	e.depth = 0
